@@ -40,9 +40,114 @@ func topEmsgs(b []byte) (n int, pts []uint64) {
 	return
 }
 
+// scteEmsgs returns the SCTE-35 emsg boxes (version 1) at the top level of a body, decoded without the mp4 library:
+// timescale, presentation time, event duration, id, message data.
+type rawEmsg struct {
+	timescale, dur, id uint32
+	pt                 uint64
+	msg                []byte
+}
+
+func scteEmsgs(b []byte) (out []rawEmsg) {
+	for len(b) >= 8 {
+		size := uint64(binary.BigEndian.Uint32(b[:4]))
+		hdr := uint64(8)
+		if size == 1 && len(b) >= 16 {
+			size = binary.BigEndian.Uint64(b[8:16])
+			hdr = 16
+		}
+		if size < hdr || size > uint64(len(b)) {
+			return
+		}
+		if string(b[4:8]) == "emsg" && bytes.Contains(b[hdr:size], []byte(scteScheme)) && b[hdr] == 1 && size >= hdr+24 {
+			p := b[hdr+4 : size]
+			e := rawEmsg{timescale: binary.BigEndian.Uint32(p[0:4]), pt: binary.BigEndian.Uint64(p[4:12]), dur: binary.BigEndian.Uint32(p[12:16]), id: binary.BigEndian.Uint32(p[16:20])}
+			rest := p[20:]
+			for k := 0; k < 2; k++ { // scheme_id_uri and value, zero-terminated
+				if i := bytes.IndexByte(rest, 0); i >= 0 {
+					rest = rest[i+1:]
+				}
+			}
+			e.msg = rest
+			out = append(out, e)
+		}
+		b = b[size:]
+	}
+	return
+}
+
+// c13Interleaved: clients of streams with different events-per-minute settings ask for the segment that announces the
+// same splice one after the other (the :10 splice is common to N = 1, 2, 3 but lasts 20 s for N = 1 and 10 s otherwise):
+// each gets the event of its own setting, with event duration, break duration, ids and PTS consistent, whatever was
+// asked just before — through the handler, in whole-segment and in chunked low-latency mode.
+func c13Interleaved(c *Ctx) {
+	getServer()
+	for _, name := range []string{"testpic_2s", "testpic_6s", "testpic_8s"} {
+		a := findVAsset(name)
+		if a == nil {
+			continue
+		}
+		ref := refRepOf(a)
+		if ref == nil || ref.ContentType != "video" {
+			continue
+		}
+		T := uint64(ref.MediaTimescale)
+		for _, ll := range []string{"", "ato_1/chunkdur_0.5/"} {
+			for _, minute := range []int{5, 6, 61} {
+				ann := uint64(60*minute+10-7) * T // announce instant of the :10 splice
+				// the segment whose interval (start, end] contains the announce instant
+				k := 0
+				for ; k < 100000; k++ {
+					e := expectSeg(a, ref, k, 0)
+					if e.start < ann && ann <= e.end {
+						break
+					}
+				}
+				e := expectSeg(a, ref, k, 0)
+				av, _ := availMS(e, int(T), 0, 0)
+				for _, N := range []int{1, 2, 3, 1, 3, 2, 1} {
+					u := fmt.Sprintf("/livesim2/scte35_%d/%s%s/%s?nowMS=%d", N, ll, a.AssetPath, strings.ReplaceAll(ref.MediaURI, "$Number$", strconv.Itoa(e.nr)), av+int64(a.SegmentDurMS)+77)
+					if strings.Contains(ref.MediaURI, "$Time$") {
+						continue
+					}
+					res := doLive("GET", u)
+					c.Count("scte-interleaved")
+					if res.code != 200 {
+						c.Violate("scte-interleaved", fmt.Sprintf("segment announcing the :10 splice of minute %d: status %d", minute, res.code), []string{"# GET " + u}, nil)
+						continue
+					}
+					ems := scteEmsgs(res.body)
+					if len(ems) != 1 {
+						c.Violate("scte-video-seg", fmt.Sprintf("video segment (%d,%d] T=%d N=%d announcing the :10 splice of minute %d carries %d SCTE-35 emsg, the schedule gives 1", e.start, e.end, T, N, minute, len(ems)), []string{"# GET " + u}, nil)
+						continue
+					}
+					em := ems[0]
+					ad := uint64(10)
+					if N == 1 {
+						ad = 20
+					}
+					si, ok := decodeSpliceInfo(em.msg)
+					wantPT := uint64(60*minute+10) * T
+					switch {
+					case !ok || !si.lenOK || !si.crcOK:
+						c.Violate("section-malformed", "splice_info_section in the served emsg does not decode / wrong CRC", []string{"# GET " + u}, nil)
+					case em.pt != wantPT || uint64(em.timescale) != T:
+						c.Violate("scte-video-seg", fmt.Sprintf("emsg presentation time %d / timescale %d, want %d / %d", em.pt, em.timescale, wantPT, T), []string{"# GET " + u}, nil)
+					case uint64(em.dur) != ad*T || si.breakDur != ad*90000:
+						c.Violate("fields-duration", fmt.Sprintf("scte35_%d: emsg event duration %d (T=%d), break duration %d (90 kHz): want %d s for both (the request before this one was for another events-per-minute setting)", N, em.dur, T, si.breakDur, ad), []string{"# GET " + u}, nil)
+					case uint64(em.id) != uint64(60*minute+10) || si.eventID != uint64(em.id) || si.ptsTime != wantPT*90000/T%(1<<33):
+						c.Violate("fields-pts-id", fmt.Sprintf("ids (%d,%d) / pts %d inconsistent with splice second %d", em.id, si.eventID, si.ptsTime, 60*minute+10), []string{"# GET " + u}, nil)
+					}
+				}
+			}
+		}
+	}
+}
+
 func c13Handler(c *Ctx) {
 	getServer()
 	r := c.Rng
+	c13Interleaved(c)
 	for ai := range vAssets {
 		a := &vAssets[ai]
 		ref := refRepOf(a)
@@ -57,7 +162,7 @@ func c13Handler(c *Ctx) {
 		for _, N := range []int{1, 2, 3} {
 			cf := fmt.Sprintf("scte35_%d/", N)
 			if r.Intn(3) == 0 {
-				cf += r.PickS("segtimeline_1/", "timesubsstpp_en/", "timesubswvtt_en/", "ato_1/")
+				cf += r.PickS("segtimeline_1/", "timesubsstpp_en/", "timesubswvtt_en/", "ato_1/", "ato_1/chunkdur_0.5/", "segtimeline_1/ato_1/chunkdur_1/")
 			}
 			// a start time: the schedule is on the media timeline (zero at availabilityStartTime), like tfdt
 			startS := r.Pick(0, 0, 600, 1000, 7)
